@@ -66,6 +66,7 @@ def run(ctx: Ctx):
 
     # fixed top / bottom references of an array dimension reach the collator only after the shim rewrote them
     c19.slot_independence(ctx, "fixed-lists.translated")
+    helper_dispatch(ctx)
 
 
 def _dict_in(fn: ast.FunctionDef, name: Optional[str] = None) -> Optional[ast.Dict]:
@@ -198,6 +199,78 @@ def measure_table(ctx: Ctx):
     os_ = ctx.repo.cls("dimension.py", "_OrderSpec")
     e = expand(ctx.repo, os_, "measure", stop=lambda mm: True)
     ctx.check_expr("measure-table.lookup", "dimension.py::_OrderSpec.measure", e, "MEASURE(self.measure_keyname)")
+
+
+def helper_dispatch(ctx: Ctx):
+    """Which order helper sorts the rows / columns: a decision table (DECTAB) over every collation method x every type of the
+    OPPOSING dimension x (opposing dimension has subtotals or not).  `opposing_insertion` on the rows means a DERIVED column
+    (an inserted item of an array dimension) exactly when the columns dimension is an array type - not when it merely has
+    no subtotal: a stale insertion id on a categorical dimension must fail to resolve and fall back to payload order."""
+    from ..dectab import DTop, ModelInterp, Raises
+    from ..typetab import dt_members, dt_value
+
+    ci = ctx.repo.cls(MA, "_BaseOrderHelper")
+    cms = sorted(k for k in ctx.repo.cls("enums.py", "COLLATION_METHOD").consts)
+    arrays = dt_value(ctx.repo, "ARRAY_TYPES")
+    for meth, own, opp in (("row_display_order", 0, 1), ("column_display_order", 1, 0)):
+        m = ctx.repo.lookup(ci, meth)
+        where = f"{MA}::_BaseOrderHelper.{meth} [dispatch]"
+        body = SUMMARIZER.summarize(m.node, {"dimensions": ast.Name(id="dimensions", ctx=ast.Load())})
+        target = None
+        for n in ast.walk(body):
+            if isinstance(n, ast.Attribute) and n.attr == "_display_order" and isinstance(n.value, ast.Call):
+                target = n.value.func
+        if target is None:
+            ctx.undecided("helper-dispatch", where, "HelperCls(...)._display_order not found", "")
+            continue
+        bad, n_rows, undec = [], 0, None
+        for cm in cms:
+            for dt in dt_members(ctx.repo):
+                for subs in ((), ("s",)):
+                    dims = [None, None]
+                    dims[own] = {".order_spec": {".collation_method": "CM." + cm}, ".dimension_type": "CAT", ".subtotals": ()}
+                    dims[opp] = {".order_spec": {".collation_method": "CM.PAYLOAD_ORDER"}, ".dimension_type": dt, ".subtotals": subs}
+
+                    def atoms(x, dims=dims):
+                        if isinstance(x, ast.Name) and x.id == "dimensions":
+                            return tuple(dims)
+                        if isinstance(x, ast.Attribute) and isinstance(x.value, ast.Name):
+                            if x.value.id == "CM":
+                                return "CM." + x.attr
+                            if x.value.id == "DT":
+                                return dt_value(ctx.repo, x.attr)
+                        if isinstance(x, ast.Name) and ctx.repo.resolve_class(ci.module, x.id) is not None:
+                            return x.id
+                        raise KeyError
+
+                    if meth == "row_display_order":
+                        want = {"OPPOSING_ELEMENT": "_SortRowsByBaseColumnHelper", "LABEL": "_SortRowsByLabelHelper", "MARGINAL": "_SortRowsByMarginalHelper"}.get(cm, "_RowOrderHelper")
+                        if cm == "OPPOSING_INSERTION":
+                            want = "_SortRowsByDerivedColumnHelper" if dt in arrays else "_SortRowsByInsertedColumnHelper"
+                    else:
+                        want = {"LABEL": "_SortColumnsByLabelHelper", "OPPOSING_ELEMENT": "_SortColumnsByBaseRowHelper", "OPPOSING_INSERTION": "_SortColumnsByInsertedRowHelper"}.get(cm, "_ColumnOrderHelper")
+                    try:
+                        got = ModelInterp(atoms).ev(target)
+                    except Raises as r:
+                        bad.append(f"{cm} / opposing {dt}: raises {r.etype}")
+                        continue
+                    except DTop as t:
+                        undec = str(t)
+                        break
+                    n_rows += 1
+                    if got != want:
+                        bad.append(f"{cm} / opposing {dt}{' with subtotals' if subs else ' without subtotals'}: {got}, specified {want}")
+                if undec:
+                    break
+            if undec:
+                break
+        if undec:
+            ctx.undecided("helper-dispatch", where, "DECTAB: " + undec, "helper class per (collation method, opposing dimension)")
+        else:
+            ctx.ob("helper-dispatch", where, bad[:3] or f"{n_rows} (collation method, opposing type, subtotals) cases", "the helper of the collation method; opposing_insertion on rows: derived column iff the columns dimension is an array type", not bad,
+                   "a stale insertion id that equals a category id sorts the rows by that category instead of falling back to payload order")
+        ctx.count("helper dispatch tables")
+    ctx.require_min("helper dispatch tables", 2)
 
 
 def marginal_table(ctx: Ctx):
